@@ -94,7 +94,8 @@ def prof_C02(d, rng):
     d["steplib"] = "rich" if rng.random() < 0.5 else "small"
     d["autoretry"] = rng.random() < 0.15
     if d["autoretry"]:
-        d["outcomes"] = [o for o in d["outcomes"] if o != "kbi"]
+        d["outcomes"] = [o for o in d["outcomes"] if o not in ("kbi", "skip")]
+        d["hook_skips"] = False
         if "before_feature" not in d["hooks"]:
             d["hooks"].append("before_feature")
     d["continue_after_failed"] = rng.random() < 0.08
